@@ -27,8 +27,15 @@ typedef struct c17_op {
  * the large ones (inputs 3-5, C17_LARGE_N values each: above the 4096 / 8192 / 10000 size thresholds of the library) */
 extern const c17_op C17_OPS[];
 extern const int C17_NOPS, C17_NALL;
-#define C17_NIN 6
+/* C17_OPS[C17_NALL .. C17_NALL + C17_NREC) are the record operations: each updates ONE slot of the shared record
+ * C17_REC in place (slots are adjacent byte ranges of one 8-byte aligned record, one owner thread per slot) */
+extern const int C17_NREC;
+extern uint8_t C17_REC[64];
+void c17_reset_record(void);
+int c17_record_slot(int op); /* slot id of a record operation, -1 otherwise */
+#define C17_NIN 9
 #define C17_LARGE_N 12000
+#define C17_MEDIUM_N 2000
 #define C17_LARGE_BYTES (256 * 1024)
 extern const uint64_t *C17_IN[C17_NIN];
 extern const size_t C17_INN[C17_NIN];
